@@ -4,6 +4,11 @@ import json, os
 ROOT = os.path.dirname(os.path.dirname(os.path.abspath(__file__)))
 props = [json.loads(l) for l in open(ROOT + "/properties.jsonl")]
 CLAIMED = {
+ "C21": dict(
+   technique="Lean 4 proof by mutual functional induction over the evaluator (56 cases) of the substitution lemma for a hand model of Replacer; identity and rejection theorems by structural induction; model tied by exact-tree correspondence with replace() plus a value oracle through the denotational eval",
+   text="substE/replaceE (Model/Replace.lean) model Replacer: lookup-or-reuse at every node, rebuild of touched nodes through the modelled constructors, refusal of CoefficientDerivative, the shape check. C21_substitution (all well-formed expressions of any size, any mapping of terminals to images of equal shape, any valuation/side/index environment/component): the substituted expression evaluates to e under the valuation in which each mapped terminal takes its image's value, through restrictions (image read on the terminal's side), variables, conditions and index notation; C21_shape_fi (shape and free indices preserved); C21_identity (no mapped terminal => the very same tree is returned); C21_rejects_shape; C21_rejects_unapplied_derivative. replaceE is compared tree-for-tree with replace() on generated expressions x mappings to zeros/literals/leaves/generated images, and the value statement is checked on the implementation's result through eval with substituted valuations; shape-changing mappings must be refused.",
+   note="Trusted: Lean kernel; harness/props/c21.py, Drivers/Expr.lean. The theorem is about plain substitution; that the constructor rebuild at touched nodes keeps values is C05's subject (tied here by the correspondence and the value oracle). Mapped terminals under grad are excluded from the theorem (the jet of an image is outside the valuation) and covered by the oracle on the implementation only; expand_derivatives before replace is C02's subject; ExternalOperator/Interpolate/BaseForm keys are outside the model.",
+   design="5 C21"),
  "C13": dict(
    technique="Lean 4: generic congruence/equivalence theorems lifting terminal consistency to all expressions (mutual structural induction) + kernel `decide` over a per-class, per-field observation table regenerated from live objects; oracle on generated expression pairs",
    text="Generic theorems for expressions of any size and any terminal observers: == implies equal (Merkle) hash and identical repr (C13_eq_implies_hash_repr), == is an equivalence relation (C13_equivalence), the operand sharing performed by expr_equals changes no observer (C13_compare_is_pure). Their hypothesis (terminal ==/hash/repr consistent) is discharged by the regenerated table Gen/EqFields.lean: for 27 classes (terminals, Variable, Mesh, FunctionSpace, operators, Integral, Form) and each constructor field, two live objects differing in exactly that field and an equal copy; C13_fields_eq_sees_all (what hash/repr/signature/shape see, == sees), C13_fields_repr_faithful (!= objects have different repr; changed objects survive pickle and eval(repr)), C13_fields_copies. An oracle checks the same statements plus symmetry, transitivity, purity of comparison and both round trips on generated expression pools with deep copies and on forms. The Constant.__eq__ defect found by the table was repaired by a fix: commit.",
